@@ -487,7 +487,11 @@ func init() {
 		sp.Check = func(w *World, path []string) []Violation {
 			// the reopen oracle runs inside every R step; the snapshot comparison in every state keeps the
 			// reference model honest between reopens
-			return append(withProp(w.viols, "C04"), w.snapshotOracle("C04")...)
+			out := append(withProp(w.viols, "C04"), w.snapshotOracle("C04")...)
+			if len(out) == 0 {
+				out = w.drainedStoreOracle("C04")
+			}
+			return out
 		}
 		return sp
 	}
@@ -567,7 +571,11 @@ func init() {
 			sp.MaxB, sp.MaxD, sp.MaxR = 4, 12, 2
 		}
 		sp.Check = func(w *World, path []string) []Violation {
-			return append(withProp(w.viols, "C11"), w.snapshotOracle("C11")...)
+			out := append(withProp(w.viols, "C11"), w.snapshotOracle("C11")...)
+			if len(out) == 0 {
+				out = w.drainedStoreOracle("C11")
+			}
+			return out
 		}
 		return sp
 	}
